@@ -97,11 +97,12 @@ DecSpec == DInit /\ [][DNext]_dvars
 
 Res == Unmarshal(c[1], c[2])
 ResD == DecoderDecode(c[1], c[2])
+ResS == DecoderStrict(c[1], c[2])
 
 \* the result of decoding into a T is a T
 TypeKept == HasType(c[1], Res.v) /\ HasType(c[1], ResD.v)
 \* a text without repeated names that decodes without error is a fixpoint: decoding it again into the result changes nothing
-Stable == (Res.e = "" /\ NoDupKeys(c[2])) => Dec(c[1], Res.v, c[2], TRUE) = Res
+Stable == (Res.e = "" /\ NoDupKeys(c[2])) => Dec(c[1], Res.v, c[2], Opt(TRUE, FALSE)) = Res
 \* null at the top never fails and gives the zero value
 \* every case of this universe is inside what GoDec models
 Modelled == Res.e # "dc" /\ ResD.e # "dc"
@@ -114,6 +115,8 @@ NoIface(T) == CASE T.g \in {"nil", "slice", "map"} -> FALSE
                 [] T.g = "struct"                  -> \A i \in 1..Len(T.f) : NoIface(T.f[i].v)
                 [] OTHER                           -> TRUE
 UseNumberOnlyIface == NoIface(c[1]) => Res = ResD
+\* DisallowUnknownFields changes nothing but the error: the value stored is the same, and an error is added, never removed
+StrictOnlyAddsErrors == ResS.v = ResD.v /\ (ResD.e # "" => ResS.e # "")
 
-Emit == IF EmitOn THEN PrintT(ToJson([fam |-> "godec", t |-> c[1], text |-> Enc(c[2], FALSE), want |-> Res.v, err |-> Res.e, wantd |-> ResD.v, errd |-> ResD.e])) ELSE TRUE
+Emit == IF EmitOn THEN PrintT(ToJson([fam |-> "godec", t |-> c[1], text |-> Enc(c[2], FALSE), want |-> Res.v, err |-> Res.e, wantd |-> ResD.v, errd |-> ResD.e, errs |-> ResS.e])) ELSE TRUE
 =============================================================================
